@@ -313,3 +313,84 @@ Proof.
   split; [repeat constructor; cbn; lia|]. split; [repeat constructor; cbn; lia|].
   split; [cbn; lia|]. vm_compute. discriminate.
 Qed.
+
+(* ---- the repaired engine trims a torn tail before it appends ---- *)
+Lemma complete_prefix_is_prefix rs : forall n, exists tl, encode rs = encode (complete_prefix rs n) ++ tl.
+Proof.
+  induction rs as [|r rs IH]; intro n; cbn [complete_prefix]; [exists []; reflexivity|].
+  destruct (Nat.leb _ n); [|exists (encode (r :: rs)); reflexivity].
+  destruct (IH (n - length (encode1 r))%nat) as [tl H]. exists tl. cbn [encode]. rewrite H at 1. now rewrite app_assoc.
+Qed.
+
+Lemma skipn_firstn_sub {A} (l : list A) m n : skipn m (firstn n l) = firstn (n - m) (skipn m l).
+Proof.
+  revert m n; induction l as [|a l IH]; intros m n.
+  - now rewrite firstn_nil, !skipn_nil, firstn_nil.
+  - destruct m; [now rewrite Nat.sub_0_r|]. destruct n; [reflexivity|]. cbn. apply IH.
+Qed.
+
+Lemma skipn_app_len {A} (a b : list A) k : length a = k -> skipn k (a ++ b) = b.
+Proof. intro H. subst k. rewrite skipn_app, skipn_all, Nat.sub_diag. reflexivity. Qed.
+Lemma firstn_app_len {A} (a b : list A) k : length a = k -> firstn k (a ++ b) = a.
+Proof. intro H. subst k. rewrite firstn_app, firstn_all, Nat.sub_diag. cbn. apply app_nil_r. Qed.
+
+Lemma trim_len_spec rs : forall n fuel, Forall record_ok rs -> (n <= length (encode rs))%nat -> (n < fuel)%nat ->
+  trim_len fuel (firstn n (encode rs)) = length (encode (complete_prefix rs n)).
+Proof.
+  induction rs as [|r rs IH]; intros n fuel Hok Hn Hf.
+  - destruct fuel; [lia|]. cbn in Hn. replace n with 0%nat by lia. reflexivity.
+  - destruct fuel as [|fuel]; [lia|].
+    inversion Hok as [|? ? [Ht [Hs Hb]] Hok']; subst. destruct r as [t d]. cbn [fst snd] in *.
+    set (h2 := le_enc 2 t). set (h4 := le_enc 4 (N.of_nat (length d))).
+    assert (L2 : length h2 = 2%nat) by apply le_enc_length.
+    assert (L4 : length h4 = 4%nat) by apply le_enc_length.
+    assert (El : length (encode1 (t, d)) = (6 + length d)%nat) by apply encode1_length.
+    assert (Ee : encode ((t, d) :: rs) = h2 ++ h4 ++ d ++ encode rs).
+    { cbn [encode]. unfold encode1. cbn [fst snd]. now rewrite <- !app_assoc. }
+    cbn [trim_len complete_prefix]. rewrite El.
+    assert (Hlen : length (firstn n (encode ((t, d) :: rs))) = n) by (rewrite firstn_length; lia).
+    rewrite Hlen.
+    destruct (Nat.ltb n 6) eqn:E6.
+    + apply Nat.ltb_lt in E6. replace (Nat.leb (6 + length d) n) with false by (symmetry; apply Nat.leb_gt; lia). reflexivity.
+    + apply Nat.ltb_ge in E6.
+      assert (Ef : firstn n (encode ((t, d) :: rs)) = h2 ++ h4 ++ firstn (n - 6) (d ++ encode rs)).
+      { rewrite Ee. rewrite firstn_app_ge by lia. f_equal. rewrite firstn_app_ge by lia. f_equal. f_equal. lia. }
+      assert (Hsz : N.to_nat (le_dec (firstn 4 (skipn 2 (firstn n (encode ((t, d) :: rs)))))) = length d).
+      { rewrite Ef. rewrite (skipn_app_len h2 _ 2 L2). rewrite (firstn_app_len h4 _ 4 L4).
+        unfold h4. rewrite le_dec_enc by (rewrite <- pow32; exact Hs). lia. }
+      rewrite Hsz.
+      destruct (Nat.ltb n (6 + length d)) eqn:El2.
+      * apply Nat.ltb_lt in El2. replace (Nat.leb (6 + length d) n) with false by (symmetry; apply Nat.leb_gt; lia). reflexivity.
+      * apply Nat.ltb_ge in El2. replace (Nat.leb (6 + length d) n) with true by (symmetry; apply Nat.leb_le; lia).
+        cbn [encode]. rewrite app_length, El.
+        rewrite skipn_firstn_sub.
+        assert (Hsk : skipn (6 + length d) (encode1 (t, d) ++ encode rs) = encode rs)
+          by (apply skipn_app_len; exact El).
+        rewrite Hsk. rewrite IH; [reflexivity|exact Hok'| |lia].
+        rewrite Ee in Hn. rewrite !app_length in Hn. lia.
+Qed.
+
+Lemma trim_tail_spec rs n : Forall record_ok rs -> (n <= length (encode rs))%nat ->
+  trim_tail (firstn n (encode rs)) = encode (complete_prefix rs n).
+Proof.
+  intros Hok Hn. unfold trim_tail.
+  assert (Hl : length (firstn n (encode rs)) = n) by (rewrite firstn_length; lia).
+  rewrite Hl. rewrite trim_len_spec by (auto; lia).
+  rewrite firstn_firstn. rewrite Nat.min_l by apply complete_prefix_len.
+  destruct (complete_prefix_is_prefix rs n) as [tl H].
+  set (X := encode (complete_prefix rs n)) in *. rewrite H. apply firstn_app_len. reflexivity.
+Qed.
+
+(* whatever the cut, records appended by the next process read back behind the complete ones *)
+Lemma append_after_crash_fixed rs n after st :
+  Forall record_ok rs -> Forall record_ok after -> (n <= length (encode rs))%nat ->
+  read_all_fixed (trimmed_then_appended rs n after st) = LOk (complete_prefix rs n ++ after).
+Proof.
+  intros Hrs Haf Hn. unfold trimmed_then_appended. rewrite trim_tail_spec by assumption. rewrite <- encode_app.
+  pose proof (read_all_g_spec true (complete_prefix rs n ++ after) (length (encode (complete_prefix rs n ++ after))) st) as H.
+  unfold torn in H. rewrite firstn_all in H. unfold read_all_fixed. rewrite H.
+  - now rewrite complete_prefix_all.
+  - apply Forall_app; split; [now apply complete_prefix_ok | assumption].
+  - lia.
+  - now left.
+Qed.
